@@ -166,6 +166,15 @@ def check_site_registry(prog, rep):
     ef = _registry_effects(f)
     hcdel = [k for kind, k, v, _ in ef if kind == 'hc-']
     defs = local_defs(f)
+    # a deletion inside `for key in <list of keys>` deletes every element the list can hold
+    for lp in ast.walk(f):
+        if isinstance(lp, ast.For) and isinstance(lp.target, ast.Name) and lp.target.id in hcdel:
+            it = lp.iter
+            srcs = [it] + (list(defs.get(it.id, [])) if isinstance(it, ast.Name) else [])
+            for e in srcs:
+                for x in ast.walk(e):
+                    if isinstance(x, (ast.List, ast.Tuple)):
+                        hcdel.extend(unparse(el) for el in x.elts)
 
     def is_partner(k):
         txts = [k] + [unparse(v) for v in defs.get(k, [])]
